@@ -33,6 +33,10 @@ ASSUMPTIONS = [
 DRIVER = "source_finder.SourceFinder.find_sources_in_image"
 
 MUTANTS = [
+    ("rotation angle bounded at +-180", "AegeanTools/source_finder.py",
+     "            params.add(prefix + \"theta\", value=theta, vary=psf_vary)",
+     "            params.add(prefix + \"theta\", value=theta, min=-180, max=180,\n"
+     "                       vary=psf_vary)", "C01-R19"),
     ("eigenvalue floor taken from the smallest eigenvalue",
      "AegeanTools/fitting.py", "    minL = 1e-9*L[-1]", "    minL = 1e-9*L[0]",
      "C01-R18"),
@@ -260,6 +264,7 @@ def run(ctx):
     # pixels (shared with C17-R1..R3, R6)
     # covariance weighting (docov, the default): the whitening matrix clips
     # its eigenvalues relative to the largest one (shared with C04-R13)
+    r19_theta_unbounded(ctx, prog)
     from .c04 import r13_whitening
     r13_whitening(ctx, prog, rule="C01-R18")
     from .c17 import formulae as _formulae
@@ -385,10 +390,10 @@ def r3(ctx, prog):
                       "Jacobian", node=c)
 
 
-def r9(ctx, prog):
+def r9(ctx, prog, rule="C01-R9"):
     """the noise / background maps are forced or estimated, independently"""
     import itertools
-    ctx.rule("C01-R9", "noise and background: for each of the four "
+    ctx.rule(rule, "noise and background: for each of the four "
              "combinations of forced / not forced, _make_bkg_rms leaves the "
              "rms map = the forced value if given else the BANE estimate, and "
              "likewise the background map (path enumeration over the two "
@@ -492,7 +497,7 @@ def r9(ctx, prog):
         run_block(fi.node.body, given, state)
         want = {k: "forced" if given[k] else "estimated" for k in given}
         n += 1
-        ctx.check("C01-R9", fi, "rms %s, bkg %s -> %s" % (
+        ctx.check(rule, fi, "rms %s, bkg %s -> %s" % (
             "forced" if gr else "not forced", "forced" if gb else
             "not forced", state), state == want,
             "with rms %s and bkg %s the maps end up as %s (expected %s): a "
@@ -501,7 +506,40 @@ def r9(ctx, prog):
             "as 0 / the signal-to-noise is x/0" % (
                 "forced" if gr else "not forced", "forced" if gb else
                 "not forced", state, want), node=fi.node)
-    ctx.floor("C01-R9", n, 4, "forced/estimated combinations")
+    ctx.floor(rule, n, 4, "forced/estimated combinations")
+
+
+def r19_theta_unbounded(ctx, prog, rule="C01-R19"):
+    """the rotation angle is periodic: it is fitted without bounds"""
+    ctx.rule(rule, "the rotation angle of a component is a periodic "
+             "parameter and is handed to lmfit WITHOUT min / max: lmfit maps "
+             "a bounded parameter through a transform whose derivative is "
+             "zero at the bound, so an angle that starts on the bound (a "
+             "pixel-frame beam angle of +-180: BPA = 180, or CDELT2 < 0) "
+             "never moves, and the optimum may lie across the bound")
+    n = 0
+    for short in ("source_finder.SourceFinder.estimate_lmfit_parinfo",
+                  "source_finder.estimate_parinfo_image",
+                  "source_finder.SourceFinder._refit_islands"):
+        if not prog.has_func(short):
+            continue
+        fi = prog.func(short)
+        for c in walk_no_nested(fi.node):
+            if isinstance(c, ast.Call) and isinstance(c.func, ast.Attribute) \
+                    and c.func.attr == "add" and c.args and \
+                    isinstance(c.args[0], ast.BinOp) and \
+                    isinstance(c.args[0].right, ast.Constant) and \
+                    c.args[0].right.value == "theta":
+                n += 1
+                bnd = [k.arg for k in c.keywords if k.arg in ("min", "max")
+                       and not (isinstance(k.value, ast.Constant) and
+                                k.value.value is None)]
+                ctx.check(rule, fi, "theta added without bounds in " +
+                          fi.name, not bnd and len(c.args) <= 3,
+                          "theta is given %s: the fit cannot rotate past it "
+                          "and cannot leave it when it starts there" % bnd,
+                          node=c)
+    ctx.floor(rule, n, 2, "params.add(prefix + 'theta') sites")
 
 
 def r6(ctx, prog):
